@@ -230,6 +230,53 @@ def _bool_fact_of_switch(body, b):
     return None
 
 
+_CURSOR_EQUIV = {}
+
+
+def _current_none_is_at_end(prog):
+    """`current()` is None exactly when `at_end()` is true: every implementation of the cursor's `current` is
+    `self.<data>.get(self.<index>)` (nothing else decides) and every `at_end` is `self.<index> >= self.<data>.len()`"""
+    k = id(prog)
+    if k not in _CURSOR_EQUIV:
+        cur = [b for b in prog.bodies.values() if b.file in ("src/path.rs", "src/bearing.rs") and b.kind != "Closure" and b.path.split("::")[-1] == "current" and len(b.reachable) > 0]
+        end = [b for b in prog.bodies.values() if b.file in ("src/path.rs", "src/bearing.rs") and b.kind != "Closure" and b.path.split("::")[-1] == "at_end"]
+        ok = bool(cur) and bool(end)
+        for b in cur:
+            gets = b.call_sites(lambda c: c.path.split("::")[-1] == "get" and "slice" in c.path or c.path.split("::")[-1] == "get" and "[T]" in c.path)
+            switches = [x for x in b.reachable if b.term(x)["k"] == "switch"]
+            if len(gets) != 1 or switches:
+                ok = False
+        for b in end:
+            cmp_ = [st for x, i, st in b.all_stmts() if (st.get("rv") or {}).get("k") == "binop" and st["rv"].get("op") in ("Ge", "Lt", "Le", "Gt", "Eq")]
+            lens = [1 for x, i, st in b.all_stmts() if (st.get("rv") or {}).get("k") in ("len", "ptrmeta")] + b.call_sites(lambda c: c.path.split("::")[-1] == "len")
+            if len(cmp_) != 1 or cmp_[0]["rv"]["op"] != "Ge" or not lens:
+                ok = False
+        _CURSOR_EQUIV[k] = ok
+    return _CURSOR_EQUIV[k]
+
+
+def _current_fact_of_switch(prog, body, b):
+    """a switch on the discriminant of `current()`: (none_target, some_target) when None means at_end()"""
+    sd = R.switch_discr_place(body, b)
+    if sd is None or sd[0][1] or not sd[1].startswith("std::option::Option<char>"):
+        return None
+    o = R.origin(body, {"c": [sd[0][0], []]}, carriers={})
+    if o[0] != "call" or "fn" not in o[2]:
+        return None
+    c = Callee(o[2]["fn"])
+    if c.path.split("::")[-1] != "current" or not (c.path.startswith("svgdx::path::") or c.path.startswith("svgdx::bearing::") or "svgdx::path::" in c.inst):
+        return None
+    if not _current_none_is_at_end(prog):
+        return None
+    t = body.term(b)
+    m = {v: tgt for v, tgt in t["vals"]}
+    none_t = m.get(0, t["otherwise"] if 1 in m else None)
+    some_t = m.get(1, t["otherwise"] if 0 in m else None)
+    if none_t is None or some_t is None or none_t == some_t:
+        return None
+    return none_t, some_t
+
+
 def _literal_err_try(body, b):
     """`Err(e)?`: the switch on the ControlFlow of a literally constructed Err can only take Break"""
     sd = R.switch_discr_place(body, b)
@@ -285,6 +332,17 @@ def consumes_on_ok(prog, body, progress_ids, allow_end=True):
                     continue
                 nf = dict(f)
                 nf[name] = val
+                work.append((tgt, frozenset(nf.items()), path + (tgt,)))
+            continue
+        cf = _current_fact_of_switch(prog, body, b)
+        if cf is not None:
+            # `while let Some(ch) = cursor.current()`: None is the end of the input
+            f = dict(facts)
+            for tgt, val in ((cf[0], True), (cf[1], False)):
+                if "at_end" in f and f["at_end"] != val:
+                    continue
+                nf = dict(f)
+                nf["at_end"] = val
                 work.append((tgt, frozenset(nf.items()), path + (tgt,)))
             continue
         iv = _immutable_switch_subject(body, b)
